@@ -3,6 +3,18 @@
 import json
 
 ARMED = {
+ "C13": ("edit × denormalisation matrix by must-pass-through on success exits; flow-sensitive event extraction and publisher/subscriber/handler-case agreement; delta ⇒ notify path search; sibling agreement of event handlers; loop-skip provenance",
+         "Static decision of necessary conditions of 'annotation indices stay consistent': every element post/delete/move updates the block store, the tag index, the label index and partner relationships and commits the batch on each success exit (R13.1); every label operation publishes an event that annotation subscribes to with a delta type its handler has a case for (R13.2); wherever a per-body delta is recorded the count subscribers are notified (R13.3); the label-event handlers both write and delete per-body keys (R13.4); a move rewrites partner references in every partner block but the source block (R13.5). Level 'other': the contents of the denormalised lists (e.g. which tags are computed as removed) are value-level and not decided.",
+         "Trusts go/ssa and VTA; sync event delivery order is not modelled.",
+         "DESIGN.md §2 C13"),
+ "C16": ("write-through must-pass-through per store write; must-hold lockset for the memory database; selector provenance of the dual read paths; head-guard edge dominance",
+         "Static decision of necessary conditions of 'neuronjson's in-memory head database equals the store': every function that stores or deletes an annotation consults the in-memory database of the request's own version and applies the same change (R16.1); the database's maps and id list change only under its write lock (R16.2); every read entry selects memory vs store by getMemDBbyVersion of the request's version (R16.3); a head database is handed out only for the version GetBranchHead reports and the loader decodes with the typed decoder (R16.5); head metadata caches are written only when the request context is the head (R16.6). Level 'other': equality of query results between the two paths (field conditionals, range ends) is value-level and not decided.",
+         "Trusts go/ssa; lock identity by field name; start-up loaders are exceptions with reasons.",
+         "DESIGN.md §2 C16"),
+ "C17": ("write entry → extents update reachability and provenance of the extents read/written; SCCP-restricted path search of the ROI gate",
+         "Static decision of necessary conditions of 'extents and ROI masks bound writes': every voxel/block write entry of imageblk and the label types reaches the extents update, and PostExtents decides from the extents stored for the request's own version and writes them back under that context (R17.1); in ROI-aware write loops the block put is unreachable when the ROI test says outside (R17.2). Level 'other': the min/max arithmetic of the extents and ROI iterator geometry are value-level and not decided.",
+         "Trusts go/ssa and VTA.",
+         "DESIGN.md §2 C17"),
  "C14": ("typestate path search (NewMutation→Execute) with creation-guard propagation; write→announce must-pass-through; loop-shape checks of Execute by linear forms and SCCP; worker completeness path search; sibling comparison-direction agreement of vote loops",
          "Static decision of necessary conditions of 'lower-resolution levels match the down-sampling': every NewMutation reaches Execute on success exits (release on error exits: seven known findings) (R14.1); every hi-res block write/record with a mutation in scope is followed by BlockMutated on success paths (R14.2); Execute chains levels up to the configured maximum, marks level s+1 idle only after it was stored, and the started levels equal the stopped ones (R14.3); every lower-resolution block is stored at scale+1 and passed to the next level before its octant is reported done (R14.4); all map-based vote loops break ties towards the smaller label (R14.5). Level 'other': the vote and octant assembly themselves (value-level) are not decided.",
          "Trusts go/ssa; configuration flags (downscale, scale==0) may legitimately skip announcements.",
